@@ -275,7 +275,7 @@ func runDispatch(ops []cop, hist []int, trace bool) (viol, key string, steps int
 			return
 		}
 		q2 := map[uint16]*cex{} // inbound QoS 2 exchanges at the client
-		var q2order []*cex // all exchanges, oldest first (q2: the newest one per identifier)
+		var q2order []*cex      // all exchanges, oldest first (q2: the newest one per identifier)
 		unsubDone := map[string]bool{}
 		_ = unsubDone
 		for _, hi := range hist {
